@@ -51,7 +51,7 @@ fn key(t: &Tri<ClipVert<u8>>) -> F {
 // @clause depth sorting orders triangles by the sort key the code uses (the sum of the three vertex depths): non-decreasing for FrontToBack, non-increasing for BackToFront; the result is a permutation of the input (every tagged triangle is still present once); so for triangles with disjoint depth ranges BackToFront delivers painter's order
 #[cfg(not(verif_skip_render_depth_sort_orders_by_key))]
 #[kani::proof]
-#[kani::unwind(8)]
+#[kani::unwind(24)]
 fn render_depth_sort_orders_by_key() {
     let z: [F; 9] = kani::any();
     let mut i = 0;
